@@ -70,6 +70,51 @@ Theorem C18_sync_fails_when_it_must : forall p P,
 Proof. exact sync_fails_when_it_must. Qed.
 Print Assumptions C18_sync_fails_when_it_must.
 
+(* limit of the g52v2 object: beyond 65535 ms of processing the report saturates and the non-LAN
+   bound no longer holds (witness by computation, replayed as corpus/C18/nonlan_processing_beyond_u16) *)
+Theorem C18_nonlan_beyond_u16_refuted :
+  exists P hold back w tw,
+    tsp_b1 P = hold + back /\ tsp_rep P = Z.min hold 65535 /\ tsp_f2 P = tsp_f1 P /\
+    0 <= tsp_f1 P /\ 0 <= back /\
+    plain_sync TsNonLan P = TsSuccess w tw /\
+    Z.abs (w - (tsp_c0 P + tw)) > (Z.abs (back - tsp_f1 P) + 1) / 2.
+Proof. exact nonlan_beyond_u16_refuted. Qed.
+Print Assumptions C18_nonlan_beyond_u16_refuted.
+
+Theorem C18_nonlan_saturated_error : forall P hold back w tw,
+  tsp_b1 P = hold + back -> tsp_rep P = 65535 -> 65535 <= hold ->
+  plain_sync TsNonLan P = TsSuccess w tw ->
+  (tsp_c0 P + tw) - w = tsp_f2 P - (tsp_f1 P + back + (hold - 65535)) / 2.
+Proof. exact nonlan_saturated_error. Qed.
+Print Assumptions C18_nonlan_saturated_error.
+
+(* the closed form the theorems are about agrees with the simulated engine (tasks + channel + byte
+   encodings, the model that is diffed against the implementation) on a grid of 14400 schedules *)
+Theorem C18_engine_agrees_with_closed_form_on_grid :
+  forallb (fun p =>
+  forallb (fun m =>
+  forallb (fun tmo =>
+  forallb (fun c0 =>
+  forallb (fun f =>
+  forallb (fun b =>
+  forallb (fun h =>
+  forallb (fun rep =>
+    outcome_agrees
+      (engine_outcome None
+         (run_tsync {| tsc_c0 := c0; tsc_proc := p; tsc_tmo := tmo; tsc_mode := m |} (grid_script f b h rep)))
+      (plain_sync p (grid_sched c0 f b h rep tmo m)))
+    [h; h + 1; f + h + b; f + h + b + 1; 65535])
+    [0; 7; 65536])
+    [0; 1; 3; 65535])
+    [0; 1; 2; 500; 70000])
+    [0; 140737488355328; ts_max - 70000; ts_max])
+    [400003; 1001])
+    [TsNAuto; TsNStuck])
+    [TsLan; TsNonLan; TsDirect]
+  = true.
+Proof. exact engine_agrees_with_closed_form_on_grid. Qed.
+Print Assumptions C18_engine_agrees_with_closed_form_on_grid.
+
 (* ---- non-vacuity ---- *)
 Definition ex_sched (c0 f1 b1 f2 b2 rep : Z) : ts_sched :=
   {| tsp_c0 := c0; tsp_on := true; tsp_t0 := 0; tsp_f1 := f1; tsp_b1 := b1; tsp_f2 := f2; tsp_b2 := b2;
